@@ -140,7 +140,13 @@ func c12RealBackends(ctx *Ctx) {
 			n = 14
 		}
 		for i := 0; i < n; i++ {
-			sc.Steps = append(sc.Steps, CycleStep{Curve: pick(r, 0, 255, 45, 110, 205, r.Intn(256), r.Intn(256)), DtMs: 200})
+			st := CycleStep{Curve: pick(r, 0, 255, 45, 110, 205, r.Intn(256), r.Intn(256)), DtMs: 200}
+			if (kind == "file" || kind == "file-home") && r.Intn(6) == 0 {
+				// the PWM file cannot be replaced during this cycle (bind-mounted file, directory without create permission);
+				// writing it in place would work
+				st.Fault = &FaultSpec{Target: "pwm", Op: "w", Action: "fail-atomic", Errno: "EBUSY"}
+			}
+			sc.Steps = append(sc.Steps, st)
 		}
 		moved := false
 		setFailed := false // the set command of the cycle just observed was made to fail
@@ -157,6 +163,11 @@ func c12RealBackends(ctx *Ctx) {
 				}
 			}
 			if failedNow {
+				return rec.Panic != ""
+			}
+			if rec.Step.Fault != nil && len(rec.PwmWrites) > 0 && rec.PwmWriteErrs == len(rec.PwmWrites) {
+				// every write of this cycle was refused: nothing is demanded of it (the next cycle must bring the fan to its value)
+				ctx.Count("cycles_whose_only_pwm_write_was_refused", 1)
 				return rec.Panic != ""
 			}
 			if rec.Err != nil || rec.Panic != "" || !rec.HasRequest || w.PwmMap == nil {
